@@ -125,7 +125,7 @@ CLAIMED = {
             "stateful property-based testing (rapid) with a registry model; invariants and the three lookup queries checked after every step",
             "Registration sequences over 2..4 validators x 3 chains x small key/orchestrator pools (reuse across validators and chains, re-registration, future/stale nonce, foreign key, signature over another validator, "
             "corrupted or replayed signature, unknown validator, another validator's own account as orchestrator), with the ante handler's sequence increment emulated; accepted registrations must have a valid signature over "
-            "(validator, sequence-1) and must not take an address or orchestrator currently held by another validator; refusals write nothing; bindings stay injective and consistent across the three indexes; claims sent by an orchestrator are recorded as its validator's vote.",
+            "(validator, sequence-1) and must not take an address or orchestrator currently held by another validator; refusals write nothing; bindings stay injective and consistent across the three indexes; claims sent by an orchestrator are recorded as its validator's vote. A second test runs the real keys-generator binary (built from /repo/keys-generator) and requires the hub to accept its signature for exactly the matching account sequence and validator.",
             "Transaction-level signature checks are the ante handler's; fresh keys must be accepted (completeness is only required for never-used addresses).",
             "DESIGN.md §4 C17"),
     "C20": ("fault_enumeration",
